@@ -112,6 +112,7 @@ func checkC02(p *Program, r *Report) {
 	checkEncodeEach(p, r)
 	checkEncodeIndependent(p, r, "C02.encode-independent")
 	checkCodecsAs(p, r, "C02")
+	checkCapacity(p, r, "C02.capacity")
 }
 
 // checkRangeRouting: index.RangeGet -> SlimTrie.RangeGet; RangeGet and Search
